@@ -412,7 +412,10 @@ class CallMixin:
                         continue
                     hfns = con.ensure_hints.get(label, ())
                     if hfns:
-                        hs_ = [h(cx, result, Vars(o.state.env), **vals) for h in hfns]
+                        hs_ = []
+                        for h in hfns:
+                            r_ = h(cx, result, Vars(o.state.env), **vals)
+                            hs_.extend(r_ if isinstance(r_, (list, tuple)) else [r_])
                         ob = self.emit_with_hints("post", label, o.state, goal, hs_)
                     else:
                         ob = self.emit("post", label, o.state, goal)
